@@ -657,6 +657,7 @@ def run_shard(ctx, shard, tier):
     # three list mutators); the probes add the rest
     evs3 = [e for e in evs if e[0] in ("sync", "unsync", "gc", "del") or
             (e[0] == "set" and e[3] in (1, 3)) or
+            e == ("set", "a", "x", 2) or        # (the value pz refuses)
             (e[0] == "lop" and e[3] in ("append", "ext_del", "assign"))]
     frontier = [[]]
     n_exec = 0
